@@ -119,7 +119,10 @@ def exec_opt(job):
     est, ref = PosePath3D(x.copy(), quat.copy()), PosePath3D(y.copy(), quat.copy())
     before = float(np.sum((x - y) ** 2))
     try:
-        r, t, s = est.align(ref, correct_scale=c["scale"])
+        if (n // 2) % 2:
+            r, t, s = est.align(ref, correct_scale=c["scale"], n=-1)       # "all poses", as evo_ape / evo_rpe / evo_traj pass it
+        else:
+            r, t, s = est.align(ref, correct_scale=c["scale"])
     except GeometryException:
         return {"out": "GeometryException", "proper": True, "sseAfter64": 0, "sseBefore64": 0}
     except Exception as e:  # noqa: BLE001
@@ -128,6 +131,37 @@ def exec_opt(job):
     proper = bool(np.max(np.abs(r.T @ r - np.eye(3))) < 1e-9 and abs(np.linalg.det(r) - 1) < 1e-9 and s > 0)
     return {"out": "ok", "proper": proper, "sseAfter64": int(math.floor(64 * N * N * after + 1e-6)),
             "sseBefore64": int(math.floor(64 * N * N * before + 1e-6))}
+
+
+def exec_nearunit(job):
+    """est = (1 + eps) g ref + t with eps = +-2^-18: similarity alignment, then validity of the aligned poses"""
+    from evo.core.trajectory import PosePath3D, PoseTrajectory3D
+    n, c = job
+    R = geom.o24_matrix(geom.O24[c["g"] % 24])
+    eps = (1.0 + 2.0 ** -18) if c["up"] else (1.0 - 2.0 ** -18)
+    refp = np.array([[0, 0, 0], [1, 0, 0], [1, 2, 0], [1, 2, 3], [-1, 2, 4], [0, -2, 1]], dtype=float) * c["u"]
+    rots = [geom.o24_matrix(geom.O24[(k * 5 + c["g"]) % 24]) for k in range(len(refp))]
+    t = np.array([4.0, -8.0, 12.0]) * c["u"]
+    ref_poses = [geom.se3(r, p) for r, p in zip(rots, refp)]
+    est_poses = [geom.se3(R @ r, eps * (R @ p) + t) for r, p in zip(rots, refp)]
+    if c["built"] == "se3":
+        est, ref = PosePath3D(poses_se3=est_poses), PosePath3D(poses_se3=ref_poses)
+    else:
+        qs = lambda ps: np.array([geom.quat_wxyz(tuple(geom.alpha_rot(p[:3, :3]))) for p in ps])  # noqa: E731
+        est = PosePath3D(positions_xyz=np.array([p[:3, 3] for p in est_poses]), orientations_quat_wxyz=qs(est_poses))
+        ref = PosePath3D(positions_xyz=np.array([p[:3, 3] for p in ref_poses]), orientations_quat_wxyz=qs(ref_poses))
+    try:
+        est.align(ref, correct_scale=True, n=c["n"])
+    except Exception as e:  # noqa: BLE001
+        return {"out": type(e).__name__, "valid": False, "fits": False}
+    ok = bool(est.check()[0])
+    for p in est.poses_se3:
+        r3 = np.asarray(p)[:3, :3]
+        if np.max(np.abs(r3.T @ r3 - np.eye(3))) > 1e-9 or abs(np.linalg.det(r3) - 1) > 1e-9:
+            ok = False
+    fits = bool(np.max(np.abs(np.asarray(est.positions_xyz) - refp)) <= 1e-9 * max(1.0, 16 * c["u"])
+                and all(np.max(np.abs(np.asarray(p)[:3, :3] - r)) < 1e-9 for p, r in zip(est.poses_se3, rots)))
+    return {"out": "ok", "valid": ok, "fits": fits}
 
 
 def run(rep, tier, seed):
@@ -185,6 +219,14 @@ def run(rep, tier, seed):
         meta[tid] = ({"mode": "opt", "n": -1, "s0": 0}, c, o)
         if o["out"] == "ok":
             rep.nontriv(["opt", c])
+    njobs = [(k, {"g": g, "up": bool(k % 2), "u": [1.0, 0.25, 1024.0][k % 3], "built": ["se3", "pq"][(k // 2) % 2], "n": [-1, 4][(k // 4) % 2]})
+             for k, g in enumerate(range(24 if tier == "quick" else 96))]
+    nobs = core.pmap(exec_nearunit, njobs, chunksize=8)
+    for (k, c), o in zip(njobs, nobs):
+        tid = "nu%d" % k
+        traces.append({"id": tid, "what": "nearunit", "c": c, "o": o, "_single": True})
+        meta[tid] = ({"mode": "nearunit", "n": c["n"], "s0": 1}, c, o)
+        rep.nontriv(["nearunit", c])
     probes = _probes(traces)
     rejects = core.validate("align", "Trace_Align", traces + probes, workers=8)
     rej = {x[0] for x in rejects}
